@@ -69,6 +69,7 @@ type coreScript struct {
 	RegCalls   []coreRegCall `json:"reg_calls"`  // RegisterLevel calls of the Register action
 	HandlerOpts []coreHandlerOpt `json:"handler_opts"` // options of the MkHandler action
 	ProcPer    bool          `json:"proc_per"`   // one fresh process per behaviour (the level registry cannot be reset)
+	BulkN      int           `json:"bulk_n"`     // children per BulkKids batch (1100 unless the script says otherwise)
 	Behaviours [][]coreEvent `json:"behaviours"`
 }
 
@@ -490,8 +491,12 @@ func (r *coreRun) exec(ev coreEvent) (rec map[string]any) {
 	case "VrbMode":
 		is.SetVerboseMode(ev.A == 1)
 	case "BulkKids":
-		// a long-running process: 1100 anonymous children of l, made in every way a child can be derived
-		for i := 0; i < 1100; i++ {
+		// a long-running process: 1100 (or bulk_n) anonymous children of l, made in every way a child can be derived
+		bulkN := r.sc.BulkN
+		if bulkN == 0 {
+			bulkN = 1100
+		}
+		for i := 0; i < bulkN; i++ {
 			var c *slog.Entry
 			switch i % 3 {
 			case 0:
